@@ -2,6 +2,7 @@
    a matcher / module function `expand` / encoding branches.  (The older operations are in Ops/C11.lean.) -/
 import CLModel.Proto
 import CLModel.Paths.MatcherX
+import CLModel.Paths.MatcherObj
 import CLModel.Ops.C11
 namespace Ops.C12
 open Proto PM Ops.C11
@@ -263,6 +264,135 @@ def opSeq (toks : List String) : String :=
     | _ => "bad-args"
   | none => "bad-args"
 
+/-! ### histories on a store of matcher OBJECTS (round 5: the environment dicts and the cache are state) -/
+
+def insertKey (kv : Text × Val) : List (Text × Val) → List (Text × Val)
+  | [] => [kv]
+  | x :: xs => if MP.lexLt kv.1 x.1 then kv :: x :: xs else x :: insertKey kv xs
+
+/-- the entries of a dict ordered by key (the order of insertion is not part of the snapshot) -/
+def sortEnv (e : Env) : Env := e.foldl (fun acc kv => insertKey kv acc) []
+
+def showVal : Val → String
+  | .pat p => showPattern p ++ (match p.root with | some r => "@" ++ showText r | none => "")
+  | .str s => "L" ++ showText s
+
+def showEnv (e : Env) : String :=
+  "{" ++ ",".intercalate ((sortEnv e).map (fun kv => showText kv.1 ++ "=" ++ showVal kv.2)) ++ "}"
+
+/-- snapshot of one object: pattern ; root ; environment (by key) ; is something cached -/
+def showObj (s : Store) (o : Nat) : String :=
+  match s.view o with
+  | none => "dangling"
+  | some c => showPattern c.m.pattern ++ " ; " ++ rootStr c.m.pattern.root ++ " ; " ++ showEnv c.m.env ++ " ; " ++
+      showB c.cache.isSome
+
+/-- snapshots of all objects; an object whose snapshot is what it was after the previous call is shown as `=` -/
+def showStore (s : Store) (prev : List String) : String × List String :=
+  let cur := (List.range s.objs.length).map (showObj s)
+  (" # ".intercalate ((cur.zipIdx).map (fun p => if prev[p.2]? == some p.1 then "=" else p.1)), cur)
+
+def showOut : Except XErr Out → String
+  | .error e => showXErr e
+  | .ok (.text t) => showText t
+  | .ok .unit => "ok"
+  | .ok (.bools a b) => showB a ++ showB b
+  | .ok (.groups none) => "None"
+  | .ok (.groups (some d)) => showDict d
+  | .ok (.optText none) => "None"
+  | .ok (.optText (some t)) => showText t
+  | .ok (.obj o) => s!"o{o}"
+
+/-- ops: `B <root|-> <pattern> <n> (k v)*` | `P o` | `S o` | `X o` | `R o` | `Q o1 o2` | `M o <path>` | `U o other <path>` |
+    `E o <root|-> <n> (k v)*` | `CT o <text>` | `CM o o2` | `W o <k> <v>` -/
+def parseHistOps (cwd : Text) : Nat → List String → Option (List Op × List String)
+  | 0, rest => some ([], rest)
+  | n + 1, "B" :: root :: pat :: k :: rest => do
+    let root ← if root == "-" then pure none else (parseText root).map some
+    let pat ← parseText pat
+    let k ← parseNat k
+    let (env, r) ← parsePairs k rest
+    let (ops, r') ← parseHistOps cwd n r
+    pure (Op.new cwd pat env root :: ops, r')
+  | n + 1, "P" :: o :: rest => do
+    let o ← parseNat o
+    let (ops, r') ← parseHistOps cwd n rest
+    pure (Op.prefix o :: ops, r')
+  | n + 1, "S" :: o :: rest => do
+    let o ← parseNat o
+    let (ops, r') ← parseHistOps cwd n rest
+    pure (Op.str o :: ops, r')
+  | n + 1, "X" :: o :: rest => do
+    let o ← parseNat o
+    let (ops, r') ← parseHistOps cwd n rest
+    pure (Op.expandRaise o :: ops, r')
+  | n + 1, "R" :: o :: rest => do
+    let o ← parseNat o
+    let (ops, r') ← parseHistOps cwd n rest
+    pure (Op.repr o :: ops, r')
+  | n + 1, "Q" :: o1 :: o2 :: rest => do
+    let o1 ← parseNat o1
+    let o2 ← parseNat o2
+    let (ops, r') ← parseHistOps cwd n rest
+    pure (Op.eq o1 o2 :: ops, r')
+  | n + 1, "M" :: o :: path :: rest => do
+    let o ← parseNat o
+    let path ← parseText path
+    let (ops, r') ← parseHistOps cwd n rest
+    pure (Op.matchP o path :: ops, r')
+  | n + 1, "U" :: o :: o2 :: path :: rest => do
+    let o ← parseNat o
+    let o2 ← parseNat o2
+    let path ← parseText path
+    let (ops, r') ← parseHistOps cwd n rest
+    pure (Op.sub o o2 path :: ops, r')
+  | n + 1, "E" :: o :: root :: k :: rest => do
+    let o ← parseNat o
+    let root ← if root == "-" then pure none else (parseText root).map (fun r => some (rootOfDir cwd r))
+    let k ← parseNat k
+    let (env, r) ← parsePairs k rest
+    let (ops, r') ← parseHistOps cwd n r
+    pure (Op.rebuild o env root :: ops, r')
+  | n + 1, "CT" :: o :: t :: rest => do
+    let o ← parseNat o
+    let t ← parseText t
+    let (ops, r') ← parseHistOps cwd n rest
+    pure (Op.concat o (.text t) :: ops, r')
+  | n + 1, "CM" :: o :: o2 :: rest => do
+    let o ← parseNat o
+    let o2 ← parseNat o2
+    let (ops, r') ← parseHistOps cwd n rest
+    pure (Op.concat o (.obj o2) :: ops, r')
+  | n + 1, "W" :: o :: k :: v :: rest => do
+    let o ← parseNat o
+    let k ← parseText k
+    let v ← parseText v
+    let (ops, r') ← parseHistOps cwd n rest
+    pure (Op.envSet o k v :: ops, r')
+  | _, _ => none
+
+/-- runs the history; after EVERY call: its result and the snapshot of every object of the store -/
+def runHist : Store → List Op → List String → List String → List String
+  | _, [], _, acc => acc
+  | s, op :: ops, prev, acc =>
+    match s.step op with
+    | none => acc ++ ["stuck"]
+    | some (r, s1) =>
+      let sh := showStore s1 prev
+      runHist s1 ops sh.2 (acc ++ [showOut r ++ " ~ " ++ sh.1])
+
+/-- c12.hist <cwd> <n> op* -/
+def opHist (toks : List String) : String :=
+  match toks with
+  | cwd :: n :: rest =>
+    match parseText cwd, parseNat n with
+    | some cwd, some n =>
+      match parseHistOps cwd n rest with
+      | some (ops, []) => " || ".intercalate (runHist Store.empty ops [] [])
+      | _ => "bad-args"
+    | _, _ => "bad-args"
+  | _ => "bad-args"
+
 def showOpt : Option Text → String
   | some t => showText t
   | none => "None"
@@ -285,5 +415,5 @@ def ops : List (String × (List String → String)) :=
       | [cwd, o, b, r] => showMp showText (MP.rebase cwd o b r)
       | _ => "bad-args")),
    ("c12.expand", opExpand), ("c12.eq", opEq), ("c12.concat", opConcat), ("c12.rebuild", opRebuild),
-   ("c12.enc", opEnc), ("c12.seq", opSeq)]
+   ("c12.enc", opEnc), ("c12.seq", opSeq), ("c12.hist", opHist)]
 end Ops.C12
